@@ -1,8 +1,11 @@
 #!/bin/sh
 # tools/try_seed.sh <patch.diff> <property id> [tier]   -- apply a seeded change to /repo, run the check, undo it
+# (the evidence file of the unchanged tree is preserved)
 p="$1"; id="$2"; tier="${3:-quick}"
+cp /verif/evidence/$id.json /tmp/evidence_keep_$id.json 2>/dev/null
 git -C /repo apply "$p" || { echo "patch does not apply"; exit 2; }
 /verif/check "$id" "$tier" > /tmp/try_seed_$id.log 2>&1; rc=$?
 git -C /repo checkout -- . 
+cp /tmp/evidence_keep_$id.json /verif/evidence/$id.json 2>/dev/null
 grep -E "^(VIOLATION|KNOWN-FINDING|INCONCLUSIVE|OK)" /tmp/try_seed_$id.log | cut -c1-400
 echo "exit=$rc"
